@@ -326,6 +326,41 @@ def bitfields(chk, repo, d):
            repo.func(sym), "; ".join(fails[:3]) or "!= 0 is the bit test "
            "with the field's mask; any other value compares the extracted "
            "field")
+    # (x & M) compared with a constant: the bit test (JSET: *any* bit of M
+    # set) stands for `!= 0` only; every other constant - M itself
+    # included - compares the masked value
+    fails = []
+    rows = 0
+    for mask in (1, 6, 0x80, 0xff00):
+        for v in (0, 1, mask, mask | 1, 7):
+            for op, neg in ((ast.NotEq, False), (ast.Eq, True)):
+                rows += 1
+                x = d.register("x", True, False, False)
+                try:
+                    a = d.binop(ast.BitAnd, x, mask)
+                    c = d.compare(op, a, v)
+                except (Raised, Unknown) as e:
+                    fails.append(f"(x & {mask:#x}) {'==' if neg else '!='} "
+                                 f"{v}: {e}")
+                    continue
+                inner = c
+                # == is built as the inversion of !=
+                while isinstance(inner, Obj) and inner.ci is not None and \
+                        repo.is_subclass(inner.ci, E + "InvertComparison"):
+                    inner = inner.fields.get("value")
+                is_bit = isinstance(inner, Obj) and inner.ci is not None \
+                    and repo.is_subclass(inner.ci, E + "AndComparison")
+                single = v == mask and bin(mask).count("1") == 1
+                if is_bit and v != 0 and not single:
+                    fails.append(f"(x & {mask:#x}) "
+                                 f"{'==' if neg else '!='} {v:#x} is lowered "
+                                 f"to the bit test, which is true as soon as "
+                                 f"one bit of the mask is set")
+                if not is_bit and v == 0 and not neg:
+                    pass        # a plain comparison with 0 is correct too
+    chk.ob("R03.1", E + "AndExpression.__ne__", f"masked comparisons "
+           f"({rows} rows)", not fails, repo.func(E + "AndExpression.__ne__"),
+           "; ".join(fails[:2]) or "only `!= 0` / `== 0` use JSET")
     # ~bit is (bit == 0)
     inv = repo.func(E + "Memory.__invert__")
     ok = bool(find("self == 0", inv))
